@@ -142,6 +142,17 @@ def mutations(c, label, m, tup, all_names_by_kind):
         yield ("truncated", db[:cut])
 
 
+def addressed_128(c, ds):
+    """Does the document address (by its first top-level key) a handler with a native u128 / i128 argument?"""
+    m = re.match(r'\s*\{\s*"([^"]*)"', ds)
+    if not m:
+        return False
+    for (_, _, h) in fam_basic.handlers(c):
+        if bare(h.name) == m.group(1) and any(a.ty in ("u128", "i128") for a in h.args):
+            return True
+    return False
+
+
 def run_e2(res, tier):
     cp, info = fam_basic.corpus(tier)
     cases, exp = [], []
@@ -214,7 +225,7 @@ def run_e2(res, tier):
         panics = [(t, o) for t, o in zip(targets, os_) if "panic" in o]
 
         def bad(what, cls):
-            res.violation({"kind": "differential", "cls": cls, "op": op, "pid": pid, "part": label, "method": m.name, "mkind": m.kind, "doc": ds,
+            res.violation({"kind": "differential", "cls": cls, "op": op, "pid": pid, "part": label, "method": m.name, "mkind": m.kind, "doc": ds, "native_128": model.has_wide_int(ds) or any(a.ty in ("u128", "i128") for a in m.args) or addressed_128(c, ds),
                            "wrapper": w, "parts": {t: o for t, o in zip(targets[1:], os_[1:])},
                            "what": "%s [%s] %s: %s" % (pid, op, ds[:200], what)})
         if panics:
